@@ -337,6 +337,11 @@ impl IntoType for Number {
     fn for_type(&self) -> Result<TypeLayout> {
         Ok(match self {
             Self::Byte(_) => TypeLayout::Native(super::r#type::NativeType::Byte),
+            // an integer literal that does not fit the 32 bits of an `int` is a bigint (as the
+            // constant evaluator already treats it), not an `int` that fails when it is created
+            Self::Integer(val) if val.parse::<i32>().is_err() && val.parse::<i128>().is_ok() => {
+                TypeLayout::Native(super::r#type::NativeType::BigInt)
+            }
             Self::Integer(_) => TypeLayout::Native(super::r#type::NativeType::Int),
             Self::BigInt(_) => TypeLayout::Native(super::r#type::NativeType::BigInt),
             Self::Float(_) => TypeLayout::Native(super::r#type::NativeType::Float),
@@ -349,6 +354,9 @@ impl Compile for Number {
         let matched = match self {
             Number::Byte(val) => vec![instruction!(make_byte val)],
             Number::Float(val) => vec![instruction!(make_float val)],
+            Number::Integer(val) if val.parse::<i32>().is_err() && val.parse::<i128>().is_ok() => {
+                vec![instruction!(make_bigint val)]
+            }
             Number::Integer(val) => vec![instruction!(make_int val)],
             Number::BigInt(val) => vec![instruction!(make_bigint val)],
         };
